@@ -4545,6 +4545,7 @@ unsigned int optimize_intervals_float_2D_opt_MSST19(float *oriData, size_t r1, s
 	size_t totalSampleSize = 0;
 
 	size_t offset_count = confparams_cpr->sampleDistance - 1; // count r2 offset
+	if(offset_count == 0) offset_count = 1; //sampleDistance 1: column 0 has no left neighbour (data_pos[-r2-1] would be oriData[-1])
 	size_t offset_count_2;
 	float * data_pos = oriData + r2 + offset_count;
 	float divider = log2(1+realPrecision)*2;
@@ -4606,6 +4607,7 @@ unsigned int optimize_intervals_float_3D_opt_MSST19(float *oriData, size_t r1, s
 	size_t totalSampleSize = 0;
 
 	size_t offset_count = confparams_cpr->sampleDistance - 2; // count r3 offset
+	if(confparams_cpr->sampleDistance < 3) offset_count = 1; //sampleDistance 1 or 2: column 0 has no left neighbour (and sampleDistance-2 wraps around for 1)
 	size_t offset_count_2;
 	float * data_pos = oriData + r23 + r3 + offset_count;
 	float divider = log2(1+realPrecision)*2;
@@ -4672,6 +4674,7 @@ unsigned int optimize_intervals_float_3D_opt(float *oriData, size_t r1, size_t r
 	size_t totalSampleSize = 0;
 
 	size_t offset_count = confparams_cpr->sampleDistance - 2; // count r3 offset
+	if(confparams_cpr->sampleDistance < 3) offset_count = 1; //sampleDistance 1 or 2: column 0 has no left neighbour (and sampleDistance-2 wraps around for 1)
 	size_t offset_count_2;
 	float * data_pos = oriData + r23 + r3 + offset_count;
 	size_t n1_count = 1, n2_count = 1; // count i,j sum
@@ -5042,6 +5045,7 @@ unsigned int optimize_intervals_float_2D_opt(float *oriData, size_t r1, size_t r
 	size_t totalSampleSize = 0;
 
 	size_t offset_count = confparams_cpr->sampleDistance - 1; // count r2 offset
+	if(offset_count == 0) offset_count = 1; //sampleDistance 1: column 0 has no left neighbour (data_pos[-r2-1] would be oriData[-1])
 	size_t offset_count_2;
 	float * data_pos = oriData + r2 + offset_count;
 	size_t n1_count = 1; // count i sum
@@ -5456,6 +5460,7 @@ unsigned int optimize_intervals_float_2D_with_freq_and_dense_pos(float *oriData,
 	size_t freq_count = 0;
 	size_t n1_count = 1;
 	size_t offset_count = sampleDistance - 1;
+	if(offset_count == 0) offset_count = 1; //sampleDistance 1: column 0 has no left neighbour (data_pos[-r2-1] would be oriData[-1])
 	size_t offset_count_2 = 0;
 	size_t sample_count = 0;
 	data_pos = oriData + r2 + offset_count;
@@ -6460,6 +6465,7 @@ unsigned int optimize_intervals_float_3D_with_freq_and_dense_pos(float *oriData,
 	size_t sample_count = 0;
 
 	offset_count = confparams_cpr->sampleDistance - 2; // count r3 offset
+	if(confparams_cpr->sampleDistance < 3) offset_count = 1; //sampleDistance 1 or 2: column 0 has no left neighbour (and sampleDistance-2 wraps around for 1)
 	data_pos = oriData + r23 + r3 + offset_count;
 	size_t n1_count = 1, n2_count = 1; // count i,j sum
 
